@@ -10,33 +10,6 @@ size_t g_map_ops;
 #else
 #define PRIV(x) (x)
 
-/* ---- encoder monitor M_E (C01 C07 C08 C09 C10 C20) ---- */
-size_t  g_pkt_pos;        /* payload bytes of the current packet already emitted */
-size_t  g_frame_msgs;     /* messages in the current frame */
-uint8_t g_frame_has_seg;  /* current frame holds a segment */
-uint8_t g_seg_state;      /* 0 none, 4 after first, 8 after intermediary */
-uint8_t g_frame_closed;   /* current frame trimmed: nothing may be appended */
-#define E_LEN(p)   ((size_t)(uint16_t)(p)->payload->payloadData.n)
-#define E_MT(p)    ((uint8_t)(((p)->payload->type.type & 0xFF00u) >> 8))
-#define E_RAW(p)   ((uint8_t)((p)->payload->type.type & 0xFFu))
-#define E_MAX      (this->maxBytesPerMessage)
-#define E_MIN      (this->minBytesPerMessage)
-#define E_BACK     (this->cmpFrames.back)
-#define E_USED     (E_BACK.n - this->bytesLeft)                  /* cursor: bytes of the current frame in use */
-#define E_CFG      (E_MAX >= 25 && E_MAX <= FRAME_CAP && E_MIN <= E_MAX)
-/* the current frame: open (size max, header + complete messages so far) or closed (trimmed, >= 1 message) */
-#define E_INV      (this->cmpFrames.n > 0 && this->cmpFrames.n < 0x7fffffffffff0000UL && this->bytesLeft <= E_MAX - 8 && g_frame_msgs <= FRAME_CAP && \
-                    (g_frame_closed ? (this->bytesLeft == 0 && g_frame_msgs >= 1 && E_BACK.n >= 8 + 17 && E_BACK.n <= E_MAX && E_BACK.n >= E_MIN) \
-                                    : (E_BACK.n == E_MAX && 8 + 17 * g_frame_msgs <= E_MAX - this->bytesLeft)))
-#define PKT_SHAPE(p) (__CPROVER_is_fresh((p), sizeof(*(p))) && __CPROVER_is_fresh((p)->payload, sizeof(*(p)->payload)) && (p)->payload->payloadData.n >= 1 && \
-                      (p)->payload->payloadData.n <= 65535 && CEX_LIMIT((p)->payload->payloadData.n) && __CPROVER_is_fresh((p)->payload->payloadData.d, CEX_CAP((p)->payload->payloadData.n)))
-#define ENC_BUF    (__CPROVER_is_fresh(E_BACK.d, FRAME_CAP))
-uint8_t g_version;        /* the batch's protocol version (ghost constant: never assigned) */
-/* the cached frame template: version of the batch, reserved byte zero, the ENCODER's device and stream id, the message type being encoded */
-#define TEMPLATE_OK(t) (B(t, 0) == g_version && B(t, 1) == 0 && BE16(t, 2) == this->deviceId && B(t, 4) == this->messageType && B(t, 5) == this->streamId && \
-                        ((g_k >= 8 && g_k < E_MAX) ==> (t)[g_k] == 0))
-/* post-state address of the message header that was just written (cursor before the call) */
-#define HDR_AT     (E_BACK.d + (E_BACK.n - this->bytesLeft - 16))
 #endif
 
 #define SLOT (this->segmentedPackets)
@@ -70,12 +43,28 @@ uint8_t g_frame_closed;   /* current frame trimmed: nothing may be appended */
 #define E_USED     (E_BACK.n - this->bytesLeft)                  /* cursor: bytes of the current frame in use */
 #define E_CFG      (E_MAX >= 25 && E_MAX <= FRAME_CAP && E_MIN <= E_MAX)
 /* the current frame: open (size max, header + complete messages so far) or closed (trimmed, >= 1 message) */
-#define E_INV      (this->cmpFrames.n > 0 && this->cmpFrames.n < 0x7fffffffffff0000UL && this->bytesLeft <= E_MAX - 8 && g_frame_msgs <= FRAME_CAP && \
+#define E_INV      (this->cmpFrames.n > 0 && this->bytesLeft <= E_MAX - 8 && g_frame_msgs <= FRAME_CAP && \
+                    (g_frame_msgs == 0 ==> g_frame_has_seg == 0) && (g_frame_has_seg != 0 ==> (g_frame_msgs == 1 && (g_frame_closed != 0 || this->bytesLeft == 0))) && \
                     (g_frame_closed ? (this->bytesLeft == 0 && g_frame_msgs >= 1 && E_BACK.n >= 8 + 17 && E_BACK.n <= E_MAX && E_BACK.n >= E_MIN) \
-                                    : (E_BACK.n == E_MAX && 8 + 17 * g_frame_msgs <= E_MAX - this->bytesLeft)))
+                                    : (E_BACK.n == E_MAX && (g_frame_msgs == 0 ? this->bytesLeft == E_MAX - 8 : 8 + 17 * g_frame_msgs <= E_MAX - this->bytesLeft))))
 #define PKT_SHAPE(p) (__CPROVER_is_fresh((p), sizeof(*(p))) && __CPROVER_is_fresh((p)->payload, sizeof(*(p)->payload)) && (p)->payload->payloadData.n >= 1 && \
-                      (p)->payload->payloadData.n <= 65535 && CEX_LIMIT((p)->payload->payloadData.n) && __CPROVER_is_fresh((p)->payload->payloadData.d, CEX_CAP((p)->payload->payloadData.n)))
-#define ENC_BUF    (__CPROVER_is_fresh(E_BACK.d, FRAME_CAP))
+                      (p)->payload->payloadData.n <= 65535 && PRIV(CEX_LIMIT((p)->payload->payloadData.n) && __CPROVER_is_fresh((p)->payload->payloadData.d, CEX_CAP((p)->payload->payloadData.n))))
+#define ENC_BUF    (__CPROVER_is_fresh(E_BACK.d, E_MAX))      /* capacity of the stable frame buffer: at least the configured maximum */
+#define BATCH_ELEM_OK(k) ((k) < g_batch_n ==> (__CPROVER_is_fresh(begin[k].payload, sizeof(struct ASAM_CMP_Payload)) && begin[k].payload->payloadData.n >= 1 && \
+                                              begin[k].payload->payloadData.n <= 65535 && E_MT(&begin[k]) != 0 && begin[k].version == g_version))
+#ifdef VERIF_BATCH_MAX
+/* bounded stand-in: batch length 0..VERIF_BATCH_MAX (<= 3), every element required encodable explicitly */
+#define BATCH_MAX ((size_t)VERIF_BATCH_MAX)
+#define BATCH_ALL_OK (BATCH_ELEM_OK(0) && BATCH_ELEM_OK(1) && BATCH_ELEM_OK(2))
+#define BATCH_INSTANTIATE ((void)0)
+#else
+#define BATCH_MAX ((size_t)0xfffff)
+#define BATCH_ALL_OK BATCH_ELEM_OK(g_i)                      /* at the ghost index (arbitrary, never assigned): for all packets */
+#define BATCH_INSTANTIATE __CPROVER_assume(g_done == g_i)   /* forall-instantiation: the loop body is checked for the iteration that handles packet g_i */
+#endif
+size_t g_n0;               /* frames opened before the current putPacket */
+size_t g_batch_n;          /* number of packets of the batch (ghost constant) */
+size_t g_done;             /* packets of the batch encoded so far */
 uint8_t g_version;        /* the batch's protocol version (ghost constant: never assigned) */
 /* the cached frame template: version of the batch, reserved byte zero, the ENCODER's device and stream id, the message type being encoded */
 #define TEMPLATE_OK(t) (B(t, 0) == g_version && B(t, 1) == 0 && BE16(t, 2) == this->deviceId && B(t, 4) == this->messageType && B(t, 5) == this->streamId && \
